@@ -71,6 +71,107 @@ theorem C09_src_spike (inp : List V) (sus fail : Option Rat) (method : String) :
     spike_test inp sus fail method = spikeTest method sus fail inp := by
   rw [spike_eq_arr, C09_np_spike]
 
+/-! ## location_test -/
+
+theorem getElem?_band (a b : List Bool) (i : Nat) :
+    (band a b)[i]? = match a[i]?, b[i]? with | some x, some y => some (x && y) | _, _ => none := by
+  simp only [band, List.getElem?_zipWith]; cases a[i]? <;> cases b[i]? <;> rfl
+
+theorem getElem?_bxor (a b : List Bool) (i : Nat) :
+    (bxor a b)[i]? = match a[i]?, b[i]? with | some x, some y => some (x != y) | _, _ => none := by
+  simp only [bxor, List.getElem?_zipWith]; cases a[i]? <;> cases b[i]? <;> rfl
+
+theorem getElem?_bor (a b : BArr) (i : Nat) :
+    (bor a b)[i]? = match a[i]?, b[i]? with | some x, some y => some ⟨x.d || y.d, x.m || y.m⟩ | _, _ => none := by
+  simp only [bor, List.getElem?_zipWith]; cases a[i]? <;> cases b[i]? <;> rfl
+
+theorem getElem?_ltS (a : MArr) (r : Rat) (i : Nat) : (ltS a r)[i]? = (a[i]?).map fun x => ⟨x.d.ltS r, x.m⟩ := by simp [ltS]
+theorem getElem?_gtS (a : MArr) (r : Rat) (i : Nat) : (gtS a r)[i]? = (a[i]?).map fun x => ⟨x.d.gtS r, x.m⟩ := by simp [gtS]
+
+theorem getElem?_greatCircle (hops : List V) (n i : Nat) (h : i < n) :
+    (greatCircle hops n)[i]? = some (hopCell (hopAt hops i)) := by
+  simp [greatCircle, List.getElem?_range h]
+
+/-- The flag the array-level `location_test` body leaves at one position. -/
+theorem location_flag (b : Box) (rm : Option Rat) (n i : Nat) (x y : V) (hops : List V) :
+    (let f0 : Flag := .good
+     let f1 := if ((cellOf x).m && (cellOf y).m) then Flag.missing else f0
+     let f2 := if ((cellOf x).m != (cellOf y).m) then Flag.fail else f1
+     let f3 := match rm with
+       | some r => if decide (n > 1) && (hopCell (hopAt hops i)).d.gtS r then Flag.suspect else f2
+       | none => f2
+     if ((((cellOf x).d.ltS b.minx || (cellOf y).d.ltS b.miny) || (cellOf x).d.gtS b.maxx) || (cellOf y).d.gtS b.maxy) then Flag.fail
+     else f3)
+      = locationAt b rm n x y (hopAt hops i) := by
+  cases x <;> cases y <;> cases rm <;> cases hh : hopAt hops i <;>
+    simp [locationAt, overrides, cellOf, hopCell, outsideBox, vlt, vgt, Fl.ltS, Fl.gtS, hh] <;>
+    (repeat' split) <;> simp_all
+
+/-- The body of the translated `location_test` after the argument checks. -/
+def locBody (b : Box) (rm : Option Rat) (hops : List V) (lon lat : MArr) : List Flag :=
+  let f := setWhere (setWhere (ones lon.length) (band (maskOf lon) (maskOf lat)) .missing) (bxor (maskOf lon) (maskOf lat)) .fail
+  let f := match rm with
+    | some r => if lon.length > 1 then setWhereB f (gtS (greatCircle hops lon.length) r) .suspect else f
+    | none => f
+  setWhereB f (bor (bor (bor (ltS lon b.minx) (ltS lat b.miny)) (gtS lon b.maxx)) (gtS lat b.maxy)) .fail
+
+theorem locBody_eq (b : Box) (rm : Option Rat) (hops : List V) (lon lat : List V) (hl : lon.length = lat.length) :
+    locBody b rm hops (ofInput lon) (ofInput lat)
+      = (List.range lon.length).map fun i => locationAt b rm lon.length (getV lon i) (getV lat i) (hopAt hops i) := by
+  apply List.ext_getElem?
+  intro i
+  by_cases hi : i < lon.length
+  · have hx := getElem?_getV lon i hi
+    have hy := getElem?_getV lat i (by omega)
+    have hgc := getElem?_greatCircle hops lon.length i hi
+    rw [show ((List.range lon.length).map fun i =>
+          locationAt b rm lon.length (getV lon i) (getV lat i) (hopAt hops i))[i]?
+        = some (locationAt b rm lon.length (getV lon i) (getV lat i) (hopAt hops i)) by
+      simp [List.getElem?_range hi]]
+    rw [← location_flag]
+    cases rm with
+    | none =>
+      simp only [locBody, getElem?_setWhereB, getElem?_setWhere, getElem?_ones, getElem?_band, getElem?_bxor, getElem?_bor,
+        getElem?_ltS, getElem?_gtS, maskOf, List.getElem?_map, getElem?_ofInput, length_ofInput, hx, hy, hi, if_true,
+        Option.map_some]
+    | some r =>
+      by_cases hn : lon.length > 1
+      · simp only [locBody, hn, if_true, getElem?_setWhereB, getElem?_setWhere, getElem?_ones, getElem?_band, getElem?_bxor,
+          getElem?_bor, getElem?_ltS, getElem?_gtS, maskOf, List.getElem?_map, getElem?_ofInput, length_ofInput, hx, hy, hi,
+          hgc, Option.map_some, decide_true, Bool.true_and]
+      · simp only [locBody, hn, if_false, getElem?_setWhereB, getElem?_setWhere, getElem?_ones, getElem?_band, getElem?_bxor,
+          getElem?_bor, getElem?_ltS, getElem?_gtS, maskOf, List.getElem?_map, getElem?_ofInput, length_ofInput, hx, hy, hi,
+          if_true, Option.map_some, decide_false, Bool.false_and]
+        simp
+  · have h1 : ((List.range lon.length).map fun i =>
+        locationAt b rm lon.length (getV lon i) (getV lat i) (hopAt hops i))[i]? = none := by
+      simp; omega
+    rw [h1, List.getElem?_eq_none_iff]
+    cases rm with
+    | none => simp [locBody, setWhereB, setWhere, bor, ltS, gtS, maskOf, band, bxor, ones, length_ofInput, hl]; omega
+    | some r =>
+      by_cases hn : lon.length > 1 <;>
+        simp [locBody, hn, setWhereB, setWhere, bor, ltS, gtS, maskOf, band, bxor, ones, length_ofInput, hl, greatCircle] <;> omega
+
+theorem location_eq (lon lat : List V) (bbox : SeqArg) (rm : Option Rat) (hops : List V) :
+    location_test lon lat bbox rm hops = locationTest lon lat bbox rm hops := by
+  unfold location_test locationTest boxOf
+  rcases bbox with ⟨bs, bv⟩
+  rcases bv with _ | ⟨x0, _ | ⟨y0, _ | ⟨x1, _ | ⟨y1, _ | ⟨z, t⟩⟩⟩⟩⟩ <;> cases bs <;>
+    simp [fixedLength, bind, Except.bind, pure, Except.pure, throw, throwThe, MonadExceptOf.throw]
+  by_cases hl : lon.length = lat.length
+  · have hb := locBody_eq ⟨x0, y0, x1, y1⟩ rm hops lon lat hl
+    simp only [length_ofInput, hl, if_true]
+    rw [← hl, ← hb]
+    cases rm with
+    | none => simp [locBody, length_ofInput, hl]
+    | some r => by_cases hn : lat.length > 1 <;> simp [locBody, length_ofInput, hl, hn]
+  · simp [hl, length_ofInput]
+
+/-- The translator's `location_test` is the pointwise model (`great_circle_distance` being the model input `hops`). -/
+theorem C14_src_location (lon lat : List V) (bbox : SeqArg) (rm : Option Rat) (hops : List V) :
+    location_test lon lat bbox rm hops = locationTest lon lat bbox rm hops := location_eq lon lat bbox rm hops
+
 /-- Non-vacuity: the leak is real.  With a missing predecessor the `diff` array holds |x| under
     the mask, the raw comparison flags it SUSPECT, and only the closing MISSING assignment makes
     the flag MISSING — the array-level run and the pointwise model agree. -/
